@@ -15,6 +15,14 @@
 //	                      endian), 00 = 00..00; every aligned window of the first 1 KiB, then every 488 bytes
 //	dup<bs>:<blk>         block blk of bs bytes (bs in {16,512}) duplicated in place
 //	del<bs>:<blk>         block blk removed; 512: every block; 16: every block of the first 4 KiB, then every 61st
+//	rep<w>:<off>:300      the w bytes (w in 1..4) at off (< 8) repeated 300 times in place: block duplication taken
+//	                      far enough to nest a self-recursive decoder several hundred levels deep
+//
+// Not part of the length-determined list (they need the decode tree of the unchanged file, see the `fields`
+// job in worker.go) but applied by applyMut as well:
+//
+//	f<bit>:<nbits>:<p>    the nbits (<= 64) of one decoded leaf field replaced: z = 0..0 (zero size/count),
+//	                      o = 1..1, 1 = 0..01, m = 10..0 (EBML zero size / sign bit), s = 01..1 (max signed)
 //
 // The list depends only on n, so that `(path, index range, seed, modulus)` names a reproducible batch.
 package main
@@ -97,6 +105,11 @@ func enumFamily(n int) []string {
 			}
 		}
 	}
+	for w := 1; w <= 4; w++ {
+		for off := 0; off < 8 && off+w <= n; off++ {
+			ms = append(ms, fmt.Sprintf("rep%d:%d:300", w, off))
+		}
+	}
 	return ms
 }
 
@@ -109,6 +122,10 @@ func mutKind(m string) string {
 		return "dup"
 	case strings.HasPrefix(m, "del"):
 		return "del"
+	case strings.HasPrefix(m, "rep"):
+		return "rep"
+	case m[0] == 'f':
+		return "field"
 	case m[0] == 't':
 		return "trunc"
 	case m[0] == 'o':
@@ -153,6 +170,59 @@ func applyMut(base []byte, m string) ([]byte, error) {
 		} else {
 			out = append(out, base[:lo]...)
 			out = append(out, base[hi:]...)
+		}
+		return out, nil
+	case strings.HasPrefix(m, "rep"):
+		ps := strings.Split(m[3:], ":")
+		if len(ps) != 3 {
+			return bad()
+		}
+		w, e1 := strconv.Atoi(ps[0])
+		off, e2 := strconv.Atoi(ps[1])
+		cnt, e3 := strconv.Atoi(ps[2])
+		if e1 != nil || e2 != nil || e3 != nil || w <= 0 || off < 0 || off+w > n || cnt < 1 || cnt > 100000 {
+			return bad()
+		}
+		out := make([]byte, 0, n+w*cnt)
+		out = append(out, base[:off]...)
+		for i := 0; i < cnt; i++ {
+			out = append(out, base[off:off+w]...)
+		}
+		out = append(out, base[off+w:]...)
+		return out, nil
+	case m[0] == 'f':
+		ps := strings.Split(m[1:], ":")
+		if len(ps) != 3 {
+			return bad()
+		}
+		bit, e1 := strconv.Atoi(ps[0])
+		nb, e2 := strconv.Atoi(ps[1])
+		if e1 != nil || e2 != nil || bit < 0 || nb < 1 || nb > 64 || bit+nb > n*8 {
+			return bad()
+		}
+		out := append([]byte{}, base...)
+		for i := 0; i < nb; i++ {
+			var v bool
+			switch ps[2] {
+			case "z":
+				v = false
+			case "o":
+				v = true
+			case "1":
+				v = i == nb-1
+			case "m":
+				v = i == 0
+			case "s":
+				v = i != 0
+			default:
+				return bad()
+			}
+			b := bit + i
+			if v {
+				out[b/8] |= 0x80 >> (b % 8)
+			} else {
+				out[b/8] &^= 0x80 >> (b % 8)
+			}
 		}
 		return out, nil
 	case m[0] == 't':
